@@ -513,7 +513,12 @@ class TorControlProtocol(LineOnlyReceiver):
         values = [strargs[i] for i in range(1, len(strargs), 2)]
 
         def maybe_quote(s):
-            if ' ' in s:
+            # a QuotedString with C-style escapes (control-spec 2.1.1)
+            # for any value that Tor would not read back verbatim
+            if any(c in s for c in ' \t"\\\r\n'):
+                for raw, escaped in (('\\', '\\\\'), ('"', '\\"'), ('\n', '\\n'),
+                                     ('\r', '\\r'), ('\t', '\\t')):
+                    s = s.replace(raw, escaped)
                 return '"%s"' % s
             return s
         values = [maybe_quote(v) for v in values]
